@@ -7,8 +7,9 @@ import Percival.Proofs.TimerQueue
 implementation's traces are judged by it on every run of the check).  Proved here: every trace of
 the model (`Model.Events`, which follows `events_run_internal` statement by statement) is accepted
 by that monitor; the immediate-event machinery (`heads[32]` + `minq`) refines one stable priority
-queue; the timeout handed to `poll` is exactly the time to the earliest deadline rounded up to a
-millisecond.  The timer queue is used through the C13 contract (`TQContract`).
+queue; the timeout handed to `poll` — at first, and again after every EINTR — is exactly the time to
+the earliest deadline rounded up to a millisecond.  The timer queue is used through the C13 contract
+(`TQContract`).
 -/
 namespace Percival.C05
 open Percival.Spec.Events Percival.Model.Events
@@ -55,10 +56,29 @@ theorem select_timeout_ceil (clock dl : Nat) :
 example : selectTimeout (some (timerDiff 1500 0 2501)) = 2 ∧ selectTimeout (some (timerDiff 1500 0 2500)) = 1 ∧
     selectTimeout (some (timerDiff 3000 0 2500)) = 0 ∧ selectTimeout none = -1 := by decide
 
+/-- **timeout after EINTR.** A finite wait for the timer due at `dl` µs started with the clock at `clock`
+    µs (`tv` = `events_timer_min`'s answer, `tstart` = the reading `events_network_select` takes before
+    the first poll).  When poll fails with EINTR and the clock then reads `tnow` (it never runs
+    backwards), the loop polls again with exactly `⌈(dl - tnow)/1000⌉` ms — what is left until the
+    deadline, not the full timeout again — and with 0 once the deadline has passed.  By induction this
+    holds after any number of EINTRs, since `tv` and `tstart` are fixed and only `tnow` moves. -/
+theorem select_timeout_after_eintr (clock dl tnow : Nat) (h : clock ≤ tnow) :
+    timeLeft (timerDiff clock ((dl / 1000000 : Nat) : Int) ((dl % 1000000 : Nat) : Int)) clock tnow = C05.ceilMs (dl - tnow) := by
+  obtain ⟨d1, _, d3, d4⟩ := timerDiff_spec clock dl
+  rw [timeLeft_eq _ clock tnow (dl - clock) d3 d4 d1]
+  congr 1
+  omega
+
+example : timeLeft (timerDiff 0 1 1) 0 1000 = 1000 ∧ timeLeft (timerDiff 0 1 1) 0 1001 = 999 ∧
+    timeLeft (timerDiff 0 1 1) 0 1000000 = 1 ∧ timeLeft (timerDiff 0 1 1) 0 1000001 = 0 ∧
+    timeLeft (timerDiff 0 1 1) 0 5000000 = 0 ∧
+    timeLeft (timerDiff 0 2147484 0) 0 1000000 = 2147483647 ∧ timeLeft (timerDiff 0 2147484 0) 0 1000001 = 2147483000 := by decide
+
 
 /-- **P1 (`run_admissible_C05`).** For every program (top-level API calls; callback scripts that
     register, cancel, reset, request an interrupt, move the clock, return any status; all priorities;
-    tied deadlines; scripted poll answers with ERR/HUP, EINTR and clock advance) and every fuel, the
+    tied deadlines; scripted poll answers with ERR/HUP, EINTR — with any amount of time passing before the signal, any
+    number of times in a row — and clock advance) and every fuel, the
     trace of the model is accepted by the C05 monitor: immediates run in `nextImm` order and before any
     socket or timer callback; a timer runs only when no socket reported by the latest poll is waiting
     and no timer has an earlier deadline; no poll blocks while something is runnable, none blocks
@@ -70,31 +90,30 @@ example : selectTimeout (some (timerDiff 1500 0 2501)) = 2 ∧ selectTimeout (so
     `events_network_cancel`/`register` answer ENOENT/EEXIST exactly for absent/present registrations
     (events not yet run stay registered).
 
-    Scope: `ProgOk` — no time passes while a poll is interrupted by a signal (`pollintr 0`).  Without
-    it the statement is false for the model *and for the C code*: poll is restarted with the full
-    timeout after EINTR (finding 1 in `notes/C05.md`). -/
-theorem run_admissible_C05 (C : TQContract) (fuel : Nat) (prog : List Top) (hok : ProgOk prog) :
+    The model is that of the repaired `events_network_select` (finding F11, `notes/F11-fix.md`): after
+    EINTR a finite wait goes on with what is left of it by the monotonic clock.  For the code before
+    the repair (poll restarted with the full timeout) the statement was false — it needed the
+    hypothesis that no time passes during an EINTR. -/
+theorem run_admissible_C05 (C : TQContract) (fuel : Nat) (prog : List Top) :
     C05.admissible (run fuel prog) = true :=
-  run_admissible C fuel prog hok
+  run_admissible C fuel prog
 
 /-- a program with everything in it: priorities out of order, a socket with ERR, tied timers, a reset,
-    a status that stops the first run, an interrupt requested from a callback, an EINTR -/
+    a status that stops the first run, an interrupt requested from a callback, EINTRs with time passing -/
 def demo : List Top :=
   [ .script 1 ⟨0, [.regImm 6 0]⟩, .script 2 ⟨7, []⟩, .script 5 ⟨0, [.interrupt, .regImm 7 1]⟩,
     .api (.regImm 1 5), .api (.regImm 2 3), .api (.regImm 3 5), .api (.regNet 4 9 .rd), .api (.regNet 5 9 .wr),
     .api (.regTimer 8 1000), .api (.regTimer 9 1000), .api (.resetTimer 8),
-    .run, .run, .pollAns (.eintr 0), .pollAns (.ans 700 [(9, { e := true })]), .run, .run, .run, .run ]
+    .run, .run, .pollAns (.eintr 100), .pollAns (.eintr 1), .pollAns (.ans 700 [(9, { e := true })]), .run, .run, .run, .run ]
 
-example : ProgOk demo := by
-  intro t ht adv he
-  subst he
-  simp [demo] at ht
-  omega
+example : (run 50 demo).length = 49 ∧ C05.admissible (run 50 demo) = true := by decide +kernel
 
-example : (run 50 demo).length = 48 ∧ C05.admissible (run 50 demo) = true := by decide +kernel
-
-/-- the EINTR restart: with time passing before the signal the model's own trace is rejected -/
-example : C05.admissible (run 50 [.api (.regTimer 0 1000001), .pollAns (.eintr 1000), .run]) = false := by
+/-- the EINTR restart: 1000 µs, then 1 µs, then 999000 µs pass before three signals; the waits are
+    1001 ms, then 1000 ms (999001 µs left, rounded up), 999 ms (999000 µs left) and 0 ms (nothing
+    left: the timer runs) -/
+example : run 50 [.api (.regTimer 0 1000001), .pollAns (.eintr 1000), .pollAns (.eintr 1), .pollAns (.eintr 999000), .run] =
+    [.op (.regTimer 0 1000001) .ok, .runBegin, .poll 1001 1000 [] .eintr, .poll 1000 1 [] .eintr, .poll 999 999000 [] .eintr,
+     .poll 0 0 [] .ok, .poll 0 0 [] .ok, .cb 0, .cbEnd 0, .poll 0 0 [] .ok, .ret 0] := by
   decide +kernel
 
 /-- the monitor is not vacuous -/
@@ -107,6 +126,10 @@ example :
                     .poll 0 0 [⟨3, { r := true }, { r := true }⟩] .ok, .cb 2] = false ∧
     -- blocking too long / with something runnable
     C05.admissible [.op (.regTimer 2 1500) .ok, .runBegin, .poll 3 3000 [] .ok] = false ∧
+    -- restarting with the full timeout after EINTR (the code before the repair of F11) / with what is left
+    C05.admissible [.op (.regTimer 0 1000001) .ok, .runBegin, .poll 1001 1000 [] .eintr, .poll 1001 1001000 [] .ok] = false ∧
+    C05.admissible [.op (.regTimer 0 1000001) .ok, .runBegin, .poll 1001 1000 [] .eintr, .poll 1000 1000000 [] .ok] = true ∧
+    C05.admissible [.op (.regTimer 0 1500) .ok, .runBegin, .poll 2 1500 [] .eintr, .poll 1 1000 [] .ok] = false ∧
     C05.admissible [.op (.regTimer 2 1500) .ok, .runBegin, .poll 2 2000 [] .ok, .cb 2, .cbEnd 0, .poll 0 0 [] .ok, .ret 0] = true ∧
     C05.admissible [.op (.regImm 1 0) .ok, .runBegin, .poll (-1) 0 [] .ok] = false ∧
     -- progress
@@ -130,7 +153,7 @@ def tqContract : TQContract :=
     getmin := tq_getmin, getptr := tq_getptr }
 
 /-- `run_admissible_C05` with no hypothesis left about the timer queue -/
-theorem run_admissible_C05_closed (fuel : Nat) (prog : List Top) (hok : ProgOk prog) : C05.admissible (run fuel prog) = true :=
-  run_admissible_C05 tqContract fuel prog hok
+theorem run_admissible_C05_closed (fuel : Nat) (prog : List Top) : C05.admissible (run fuel prog) = true :=
+  run_admissible_C05 tqContract fuel prog
 
 end Percival.C05
